@@ -162,7 +162,7 @@ package protocol
 //@   props C04
 //@   requires w != nil && len(addr) <= 1048576
 //@   ensures wcalls == old(wcalls) + 1
-//@   modifies wcalls
+//@   modifies wcalls, wdata, wlen
 
 // ReadTCPRequest over a byte source r positioned at p: w1 = width of the address
 // length L, then L address bytes, then the padding length P (width w2), then P bytes.
@@ -218,4 +218,4 @@ package protocol
 //@   props C04
 //@   requires w != nil && len(msg) <= 1048576
 //@   ensures wcalls == old(wcalls) + 1
-//@   modifies wcalls
+//@   modifies wcalls, wdata, wlen
